@@ -649,6 +649,8 @@ func (s *Server) read(ch receiver) {
 			s.stopLocked(err)
 			s.mu.Unlock()
 			return
+		} else if s.ch == nil { // stopped while this record was in flight; discard it
+			s.log("Discarding message received after the server stopped")
 		} else if derr != nil { // parse failure; report and continue
 			s.pushErrorLocked(derr)
 		} else if len(in) == 0 {
